@@ -976,11 +976,12 @@ func (h txHarness) Run(spec any) (res verifsim.RunResult) {
 			res.Skipped = true
 			break
 		}
-		resendsSeen = 0
+		resendsSeen, verificationsFailed = 0, 0
 		for _, e := range checkDispatch(&sp, ep, bothOK) {
 			v("dispatch", e[0], e[1])
 		}
 		res.Counters["resends_observed"] += int64(resendsSeen)
+		res.Counters["verification_failures_expected"] += int64(verificationsFailed)
 	}
 	return
 }
@@ -1202,9 +1203,31 @@ func checkDispatch(sp *txSpec, ep *epResult, success bool) [][2]string {
 		if !ep.sw.endSeen {
 			bad("no-end-record", "successful transfer without End record")
 		}
+		// the chunk that failed verification goes out (again): the harness tore it on
+		// disk itself, the receiver named it as its verification point and advertised
+		// it as present, and a hash algorithm is in force
+		if sp.Hash != "" && sp.Hash != "none" {
+			for _, tc := range tornChunks {
+				k, idx := tc[0], uint32(tc[1])
+				it, ok := keyOf[k]
+				if !ok || !hasInfo[k] || verified[k] != idx {
+					continue
+				}
+				if bm := advertised[k]; bm == nil || !bm.Get(int(idx)) {
+					continue
+				}
+				verificationsFailed++
+				if count[ck{k, idx}] == 0 {
+					bad("failed-chunk-never-resent", fmt.Sprintf("%s: chunk %d is damaged on the receiver's disk and was named as the verification point, but the sender never wrote it and still ended the file", it.RelPath, idx))
+				}
+			}
+		}
 	}
 	return out
 }
+
+// verificationsFailed counts resumed files whose verification point was a chunk the harness had torn (reach probe).
+var verificationsFailed int
 
 // resendsSeen counts verified chunks observed twice on the wire (reach probe).
 var resendsSeen int
